@@ -348,11 +348,10 @@ let h_c06 args =
   | [ a; b ] ->
       let f = parse_file a and f' = parse_file b in
       let eq = E.content_eq6 f f' in
-      (* thm: the File is inside the domain of the stream theorem C06_roundtrip (time side condition on the
-         record list Encode lays out; it does not depend on the byte order) *)
-      let ntq = E.no_time_quirk (E.file_recs f false) in
-      Printf.sprintf "wf=%s dom=%s eq=%s diff=%s ntq=%s" (b01 (E.wf_file f)) (b01 (E.in_domain f)) (b01 eq)
-        (if eq then "-" else show_diff (E.diff6 f f')) (b01 ntq)
+      (* wf and dom are the domain of the stream theorem C06_roundtrip: there is no further side condition
+         (the former time side condition went with the decoder's two time-rule defects) *)
+      Printf.sprintf "wf=%s dom=%s eq=%s diff=%s" (b01 (E.wf_file f)) (b01 (E.in_domain f)) (b01 eq)
+        (if eq then "-" else show_diff (E.diff6 f f'))
   | _ -> "ERR args"
 
 (* c07 <generation n> <generation n+1> *)
